@@ -192,4 +192,105 @@ theorem gr_fast_convert_array_crt {ib ob : RNSBase} {c : BaseConverter} (hi : ib
       gr_getD_map_range' _ _ _ _ ho', gr_getD_map_range' _ _ _ _ hj]
     exact hal o
 
+/-! ### the BEHZ routines that call `fast_convert_array`: the conversion is an abstract function input of the generated routine, instantiated
+    with the GENERATED `fast_convert_array` on the model converter's fields -/
+
+/-- the generated conversion of a model converter -/
+def gr_convF (c : BaseConverter) : List Nat → List Nat → R (List Nat) := fun a b =>
+  GenR.fast_convert_array a b c.ibase.size c.obase.size c.ibase.invPunct.toList c.ibase.base.toList c.obase.base.toList (c.matrix.toList.map Array.toList)
+
+/-- a converter as `BaseConverter.new` builds it from well-formed bases of the given sizes -/
+def gr_ConvOK (c : BaseConverter) (si so : Nat) : Prop := c.ibase.WF ∧ c.obase.WF ∧ gr_MatOK c ∧ c.ibase.size = si ∧ c.obase.size = so
+
+theorem gr_convOK_new {ib ob : RNSBase} {c : BaseConverter} (hi : ib.WF) (ho : ob.WF) (hc : BaseConverter.new ib ob = .ok c) :
+    gr_ConvOK c ib.size ob.size := by
+  obtain ⟨e1, e2, hM⟩ := gr_matOK_new hi ho hc
+  subst e1; subst e2
+  exact ⟨hi, ho, hM, rfl, rfl⟩
+
+theorem gr_extract_getD (p : RnsPoly) (s i : Nat) (hs : s ≤ p.size) (hi : i < s) : (p.extract 0 s).getD i #[] = p.getD i #[] := by
+  have h1 : i < (p.extract 0 s).size := by simp; omega
+  have h2 : i < p.size := by omega
+  simp [Array.getD, h1, h2, hi]
+
+theorem gr_flatP_extract (p : RnsPoly) (s : Nat) : flatP (p.extract 0 s) = ((p.toList.map Array.toList).take s).flatten := by
+  unfold flatP
+  rw [Array.toList_extract, List.map_take]
+  simp
+
+/-- the explicit result of the model conversion, as a list of components -/
+theorem gr_fca_model_shape (c : BaseConverter) (p : RnsPoly) (n : Nat) :
+    let convA : RnsPoly := ((List.range c.obase.size).map (fun o => ((List.range n).map (fun j => gr_fcaD c p o j)).toArray)).toArray
+    convA.size = c.obase.size ∧ ∀ i, i < c.obase.size → (convA.getD i #[]).size = n := by
+  refine ⟨by simp, fun i hi => ?_⟩
+  rw [getD_rangeMap' _ _ _ hi]
+  simp
+
+theorem gr_ff_model (r : RNSTool) (p convA : RnsPoly)
+    (hconv : r.qToBsk.fastConvertArray (p.extract 0 r.baseQ.size) r.n = .ok convA)
+    (hn : ∀ i, i < r.baseBsk.size → (p.getD (r.baseQ.size + i) #[]).size = r.n) :
+    r.fastFloor p = ((List.range' 0 r.baseBsk.size).mapM (fun i => gr_ffComp (r.baseBsk.q i) (r.invProdQModBsk.getD i default) r.n
+        (p.getD (r.baseQ.size + i) #[]).toList (convA.getD i #[]).toList) >>= fun outs => .ok (outs.map List.toArray).toArray) := by
+  unfold RNSTool.fastFloor
+  dsimp only
+  rw [hconv, ok_bind]
+  refine Eq.trans (congrArg (fun m => m >>= _) (gr_mapM_congr _ (fun i => gr_ffComp (r.baseBsk.q i) (r.invProdQModBsk.getD i default) r.n
+        (p.getD (r.baseQ.size + i) #[]).toList (convA.getD i #[]).toList >>= fun c => .ok c.toArray) _ ?hb)) ?rest
+  case hb =>
+    intro i hi
+    rw [List.mem_range] at hi
+    rw [gr_zipM'_eq, hn i hi]
+    rfl
+  case rest =>
+    rw [List.range_eq_range', gr_mapM_map_ok]
+    cases (List.range' 0 r.baseBsk.size).mapM (fun i => gr_ffComp (r.baseBsk.q i) (r.invProdQModBsk.getD i default) r.n
+        (p.getD (r.baseQ.size + i) #[]).toList (convA.getD i #[]).toList) with
+    | error e => rfl
+    | ok outs => rfl
+
+/-- **`RNSTool::fast_floor` (generated from src/util/rns.rs) = the hand model `RNSTool.fastFloor`**; input = flat buffer of the `|q| + |Bsk|` components,
+    destination = any flat buffer of `|Bsk|` components; the call `self.base_q_to_Bsk_conv.fast_convert_array(..)` is the generated `fast_convert_array`
+    on the fields of the model's `qToBsk`.  The correction loop (`b − dest`, `input + …`) traps on both sides alike. -/
+theorem gr_fast_floor_eq (r : RNSTool) (p d : RnsPoly)
+    (hc : gr_ConvOK r.qToBsk r.baseQ.size r.baseBsk.size)
+    (hp1 : p.size = r.baseQ.size + r.baseBsk.size) (hp2 : ∀ i, i < r.baseQ.size + r.baseBsk.size → (p.getD i #[]).size = r.n)
+    (hw : ∀ i j, i < r.baseQ.size → j < r.n → (p.getD i #[]).getD j 0 < 2^64)
+    (hd1 : d.size = r.baseBsk.size) (hd2 : ∀ i, i < r.baseBsk.size → (d.getD i #[]).size = r.n)
+    (hinv : r.baseBsk.size ≤ r.invProdQModBsk.size) (hsn : (r.baseQ.size + r.baseBsk.size) * r.n < 2^64) :
+    GenR.fast_floor (flatP p) (flatP d) r.baseQ.size r.baseBsk.size r.n r.baseBsk.base.toList r.invProdQModBsk.toList (gr_convF r.qToBsk)
+      = (r.fastFloor p).map flatP := by
+  obtain ⟨hi, ho, hM, hsi, hso⟩ := hc
+  obtain ⟨hcs, hn⟩ := gr_shape_cs' hp1 hp2
+  obtain ⟨hds, hdn⟩ := gr_shape_cs' hd1 hd2
+  have hle1 : r.baseQ.size * r.n ≤ (r.baseQ.size + r.baseBsk.size) * r.n := Nat.mul_le_mul_right _ (by omega)
+  have hle2 : r.baseBsk.size * r.n ≤ (r.baseQ.size + r.baseBsk.size) * r.n := Nat.mul_le_mul_right _ (by omega)
+  -- the conversion
+  have hex1 : (p.extract 0 r.baseQ.size).size = r.qToBsk.ibase.size := by simp; omega
+  have hexg : ∀ i, i < r.baseQ.size → (p.extract 0 r.baseQ.size).getD i #[] = p.getD i #[] := fun i hi' => gr_extract_getD p _ i (by omega) hi'
+  have hexw : ∀ i j, i < r.qToBsk.ibase.size → j < r.n → ((p.extract 0 r.baseQ.size).getD i #[]).getD j 0 < 2^64 := by
+    intro i j hi' hj; rw [hexg i (by omega)]; exact hw i j (by omega) hj
+  have hmodel := gr_fca_model r.qToBsk hi ho hM (p.extract 0 r.baseQ.size) r.n hex1 hexw
+  obtain ⟨hA1, hA2⟩ := gr_fca_model_shape r.qToBsk (p.extract 0 r.baseQ.size) r.n
+  generalize hconvA : (((List.range r.qToBsk.obase.size).map (fun o => ((List.range r.n).map (fun j => gr_fcaD r.qToBsk (p.extract 0 r.baseQ.size) o j)).toArray)).toArray : RnsPoly) = convA at hmodel hA1 hA2
+  have hF : gr_convF r.qToBsk ((p.toList.map Array.toList).take r.baseQ.size).flatten (flatP d) = .ok (flatP convA) := by
+    rw [← gr_flatP_extract]
+    unfold gr_convF
+    rw [gr_fca_core r.qToBsk hi ho hM (p.extract 0 r.baseQ.size) d r.n hex1
+      (fun i hi' => by rw [hexg i (by omega)]; exact hp2 i (by omega)) hexw (by omega) (fun i hi' => hd2 i (by omega)) (by rw [hsi]; omega) (by rw [hso]; omega), hmodel]
+    rfl
+  obtain ⟨hvs, hvn⟩ := gr_shape_cs' (hso ▸ hA1) (fun i hi' => hA2 i (by omega))
+  have hgen := (gr_ff_list (p.toList.map Array.toList) (d.toList.map Array.toList) r.baseQ.size r.baseBsk.size r.n r.baseBsk.base.toList r.invProdQModBsk.toList
+    (gr_convF r.qToBsk) hcs hn (by simp [RNSBase.size]) (by simpa using hinv) hsn).2 (convA.toList.map Array.toList) hvs hvn hF
+  unfold flatP at hgen ⊢
+  rw [hgen, gr_ff_model r p convA hmodel (fun i hi' => hp2 _ (by omega))]
+  simp only [gr_q_toList, gr_cs_getD, gr_ops_toList]
+  cases (List.range' 0 r.baseBsk.size).mapM (fun i => gr_ffComp (r.baseBsk.q i) (r.invProdQModBsk.getD i default) r.n
+        (p.getD (r.baseQ.size + i) #[]).toList (convA.getD i #[]).toList) with
+  | error e => rfl
+  | ok outs =>
+    simp only [gr_ok_bind]
+    show Except.ok _ = Except.ok _
+    congr 1
+    simp [List.map_map, Function.comp_def]
+
 end HC
